@@ -58,10 +58,6 @@ RAWH = [hx(b) for b in RAW]
 TYPH = [hx(s) for s in TYP]
 
 
-def is_typed_hex(h):
-    return h in TYPH
-
-
 # ---- messages -------------------------------------------------------------------------------
 
 def map_msgs(B, ops_only, small):
@@ -422,9 +418,6 @@ def primitive_tokens(text):
     return [(0, len(text))] if text and _PRIM.match(text) else []
 
 
-def defined_tags(info):
-    return TAGS[info]
-
 # =============================================================================================
 #                                        the check
 # =============================================================================================
@@ -434,9 +427,9 @@ HARNESS = ("h_core", "framing")
 
 BUDGET = {
     # reps: representatives per codec used in sequences; b3_reps: ... in the model checked sequences
-    "quick": dict(small=True, reps=4, max_frames=2, cuts_single=2, cuts_pair=1, cuts_longer=1, double_budget=6000, byte_budget=1500, sim=300,
+    "quick": dict(small=True, reps=4, max_frames=2, cuts_single=2, cuts_pair=1, cuts_longer=1, double_budget=6000, byte_budget=1500, sim=210,
                   sim_depth=400, b3_reps=1, b3_frames=2, live_seqs=40, chunk=120000, par=3, bad_frag=("whole", "bytes", "field")),
-    "thorough": dict(small=False, reps=5, max_frames=3, cuts_single=2, cuts_pair=2, cuts_longer=1, double_budget=700000, byte_budget=10 ** 9, sim=3000,
+    "thorough": dict(small=False, reps=5, max_frames=3, cuts_single=2, cuts_pair=2, cuts_longer=1, double_budget=700000, byte_budget=10 ** 9, sim=600,
                      sim_depth=800, b3_reps=3, b3_frames=3, live_seqs=400, chunk=400000, par=4, bad_frag=("whole", "bytes", "field")),
 }
 
@@ -757,7 +750,7 @@ def validate(lines, wd, name):
         fh.write("\n".join(lines))
         fh.write("\n")
     cfg = core.cfg(spec="TraceSpec", postcondition="TraceAccepted")
-    r = core.run_tlc("Trace_Framing", cfg, d, workers=1, timeout=3000, depth_first=True, env={"TRACE": tp}, xmx="6g",
+    r = core.run_tlc("Trace_Framing", cfg, d, workers=1, timeout=3000, depth_first=True, env={"TRACE": tp}, xmx="3g",
                      coverage=False)
     res = r.tagged.get("TRACE_RESULT")
     if not res:
@@ -1049,9 +1042,18 @@ def replay_obj(case, ri, res):
     return o
 
 
+def open_findings():
+    """the open findings of known_findings/C10.json.  C10_KNOWN_FINDINGS=<file> substitutes another
+    findings file (used to try the check against a patched tree before the committed file is updated)"""
+    alt = os.environ.get("C10_KNOWN_FINDINGS")
+    if alt:
+        return [f for f in json.load(open(alt))["findings"] if "C10" in f["property"].split(",") and f["status"] == "open"]
+    return core.open_findings("C10")
+
+
 def judge(out, cases, results, rej, drift):
-    open_ids = {f["id"] for f in core.open_findings("C10")}
-    texts = {f["id"]: f["what"] for f in core.open_findings("C10")}
+    open_ids = {f["id"] for f in open_findings()}
+    texts = {f["id"]: f["what"] for f in open_findings()}
     rows = []
     for rid, why in rej.items():
         ci, ri = (int(x) for x in rid.split("."))
@@ -1149,7 +1151,7 @@ def replay(path, out):
             k = finding_of_corruption(case, why)
             if k:
                 trig.add(k)
-        known = trig & {f["id"] for f in core.open_findings("C10")}
+        known = trig & {f["id"] for f in open_findings()}
         if known:
             print("KNOWN-FINDING: property=C10 %s (%s)" % (",".join(sorted(known)), why))
             return 0
